@@ -559,6 +559,8 @@ class sptenmat:
             raise IndexError("Index outside the matricized tensor")
         if value.size != len(rsubs) * len(csubs):
             raise ValueError("Number of values does not match the number of cells")
+        if value.ndim == 1:
+            value = value[:, None]
 
         newsubs = []
         newvals = []
